@@ -39,6 +39,7 @@ func semanticFamiliesFor(c *core.Ctx, backend string) []*SemCase {
 	gs = append(gs, gen.LetCopy()...)
 	gs = append(gs, gen.ContinuingOps()...)
 	gs = append(gs, gen.CasgOrder()...)
+	gs = append(gs, gen.RzswPrec()...)
 	// random structured programs (own generator state, so that the table families above do not depend on their number)
 	if randFamilyOn(backend) {
 		gs = append(gs, gen.RandProgramsFor(rand.New(rand.NewSource(c.Seed*7919+13)), c.Pick(60, 1200), c.Pick(6, 10), backend == "glsl")...)
@@ -137,7 +138,31 @@ func runTranslation(prop string, t target, tier string) int {
 		cs.ID = 100000 + i
 	}
 	cases = append(cases, ctl...)
-	st := runSemantic(c, t, cases, meaningPreservingOpts(c, t.Name), defaultRowClass)
+	// The random programs keep every index in range, so any bounds-check policy preserves their meaning.  For MSL they
+	// run under the Restrict and Unchecked policies: under the default ReadZeroSkipWrite policy every dynamic index
+	// used as an operand hits the recorded precedence defect of the `i < n ? a[i] : DefaultConstructible()` form (family
+	// rzswprec), which would mask everything else.
+	var st semStats
+	if t.Name == "msl" {
+		var rnd, rest []*SemCase
+		for _, cs := range cases {
+			if cs.Family == "rand" {
+				rnd = append(rnd, cs)
+			} else {
+				rest = append(rest, cs)
+			}
+		}
+		st = runSemantic(c, t, rest, meaningPreservingOpts(c, t.Name), defaultRowClass)
+		if len(rnd) > 0 {
+			s2 := runSemantic(c, t, rnd, []string{"restrict", "unchecked"}, defaultRowClass)
+			st.Programs += s2.Programs
+			st.Rows += s2.Rows
+			st.Compared += s2.Compared
+			st.Undecided += s2.Undecided
+		}
+	} else {
+		st = runSemantic(c, t, cases, meaningPreservingOpts(c, t.Name), defaultRowClass)
+	}
 	c.Programs = st.Programs
 	c.Cov["rows"] = st.Rows
 	c.Cov["rows_compared"] = st.Compared
